@@ -52,7 +52,7 @@ def cli_argv(o, target):
     if o.get("protocol") is not None:
         a += ["--protocol", str(o["protocol"])]
     if o.get("seed") is not None:
-        a += ["--seed", str(o["seed"])]
+        a += ["--seed", str(o.get("seed_text") or o["seed"])]
     if o.get("min") is not None:
         a += ["--min-opcodes", str(o["min"])]
     if o.get("max") is not None:
@@ -83,7 +83,7 @@ def action_env(o, sep, out_file=None, out_dir=None, samples=None, truth="true", 
     if o.get("protocol") is not None:
         e["INPUT_PROTOCOL"] = str(o["protocol"])
     if o.get("seed") is not None:
-        e["INPUT_SEED"] = str(o["seed"])
+        e["INPUT_SEED"] = str(o.get("seed_text") or o["seed"])
     if o.get("min") is not None:
         e["INPUT_MIN_OPCODES"] = str(o["min"])
     if o.get("max") is not None:
@@ -148,6 +148,14 @@ def option_matrix(rng, n_random):
         out.append(mk(seed=s))                      # protocol = seed % 6
     out.append(mk(seed=2 ** 63 + 5))
     out.append(mk(seed=2 ** 64 - 1))
+    out.append(mk(seed=2 ** 63))
+    out.append(mk(seed=2 ** 64 - 6))
+    # other spellings of the same number (the value is what counts)
+    out.append(mk(seed=10, seed_text="010"))
+    out.append(mk(seed=13, seed_text="0013"))
+    out.append(mk(seed=8, seed_text="08"))
+    out.append(mk(seed=9, seed_text="+9"))
+    out.append(mk(seed=11, seed_text="011", min=20, max=40))
     for (a, b) in [(0, 0), (0, 1), (1, 1), (7, 3), (10, 50), (300, 60), (400, 401)]:
         out.append(mk(protocol=3, seed=7, min=a, max=b))
     out.append(mk(protocol=2, seed=9, min=5))
